@@ -1051,7 +1051,7 @@ def main():
             todo = cases()
             done = 0
             for d in todo:
-                if time.time() - B.t0 > budget:
+                if B.spent() > budget:
                     break
                 strat = d.pop("strategy")
                 fam = d.pop("family") + ("/tracked" if d["track"] else "/untracked")
